@@ -537,6 +537,9 @@ func (fx *fctx) callStatic(st *State, fn *types.Func, recvExpr ast.Expr, sel *ty
 				st.assume(g)
 			}
 		}
+		if !fx.spec && con != nil {
+			fx.preCallHooks(st, ce, args)
+		}
 		return fx.inlineBody(st, fi.Decl.Type, fi.Decl.Body, sig, fi.Decl.Recv, recv, args, ce)
 	}
 	if con == nil && fx.inlineDepth < 3 && e.autoInlinable(fi) {
